@@ -35,7 +35,7 @@ static unsigned char *ever_written;     /* per image byte: written by any thread
 static long n_shared_writes, n_shared_reads, n_foreign, n_races;
 static char race_desc[300];
 static void sched_point (int kind);
-enum { PT_START, PT_END, PT_SHARED_WRITE, PT_SHARED_READ, PT_FOREIGN };
+enum { PT_START, PT_END, PT_SHARED_WRITE, PT_SHARED_READ, PT_FOREIGN, PT_MAP };
 
 static inline long
 image_off (const void *a)
@@ -357,6 +357,43 @@ sched_point (int kind)
     }
 }
 
+/* ---- the process address space is shared state too ------------------------------------ */
+/* every mapping belongs to the thread whose operation made it; mmap and munmap are scheduling points; a thread may only
+   unmap, exactly, what it mapped (anything else can hit memory another thread obtained in between) */
+static struct { unsigned char *p; size_t n; int owner; } maps[64];
+static int nmaps;
+static long n_mapviol;
+static int tid_of_caller (void);
+static void
+on_map (int kind, void *addr, size_t len)
+{
+  if (!tracking || tid_of_caller () < 0)
+    return;
+  int me = tid_of_caller ();
+  if (kind == 'M')
+    {
+      if (nmaps < 64)
+        {
+          maps[nmaps].p = addr;
+          maps[nmaps].n = len;
+          maps[nmaps].owner = me;
+          nmaps++;
+        }
+      sched_point (PT_MAP);
+      return;
+    }
+  sched_point (PT_MAP);
+  for (int i = 0; i < nmaps; i++)
+    if (maps[i].p == (unsigned char *) addr && maps[i].owner == me && ((maps[i].n + 4095) & ~(size_t) 4095) == ((len + 4095) & ~(size_t) 4095))
+      {
+        maps[i] = maps[--nmaps];
+        return;
+      }
+  n_mapviol++;
+  if (!race_desc[0])
+    snprintf (race_desc, sizeof race_desc, "thread %d unmaps %zu bytes at a mapping it did not make with that length", me, len);
+}
+
 /* ---- operations ----------------------------------------------------------------- */
 enum { O_RN, O_R, O_RA, O_GENSALT_RN, O_GENSALT_RN_NULL, O_GENSALT_RA, O_CHECKSALT, O_PREFERRED, O_CRYPT_STATIC, O_GENSALT_STATIC };
 struct opdef { int kind; int m; const char *setting; unsigned long count; char name[64]; };
@@ -380,6 +417,11 @@ struct tctx
 };
 static struct tctx T[MAXT];
 static __thread int my_tid = -1;
+static int
+tid_of_caller (void)
+{
+  return my_tid;
+}
 
 static void
 run_op (struct tctx *c, int k)
@@ -467,6 +509,8 @@ execute (const unsigned char *pfx, int plen)
   npts = 0;
   horizon_hit = 0;
   n_shared_writes = n_shared_reads = n_foreign = n_races = 0;
+  n_mapviol = 0;
+  nmaps = 0;
   race_desc[0] = 0;
   memset (sh_writer, -1, vh_img_total);
   memset (sh_readers, 0, vh_img_total);
@@ -516,11 +560,11 @@ verify (const char *cfg, int canary)
   for (int i = 0; i < npts && i < 60; i++)
     snprintf (sch + strlen (sch), sizeof sch - strlen (sch), "%d", pts[i].chosen);
   snprintf (cj, sizeof cj, "{\"config\":\"%s\",\"schedule\":\"%s\",\"points\":%d,\"shared_writes\":%ld,\"shared_reads\":%ld", cfg, sch, npts, n_shared_writes, n_shared_reads);
-  if (n_races || n_foreign)
+  if (n_races || n_foreign || n_mapviol)
     {
       if (canary)
         return 1;
-      snprintf (sig, sizeof sig, "%s/%s", n_races ? "data-race-on-library-static" : "access-to-another-threads-object", cfg);
+      snprintf (sig, sizeof sig, "%s/%s", n_races ? "data-race-on-library-static" : n_foreign ? "access-to-another-threads-object" : "unmaps-address-range-it-did-not-map", cfg);
       vh_viol (sig, "%s,\"detail\":\"%s\",\"replay\":\"%s\"}", cj, race_desc, cfg);
       return 1;
     }
@@ -646,6 +690,12 @@ mkops (void)
   nops++;
   ops[nops] = (struct opdef) { O_PREFERRED, -1, 0, 0, "crypt_preferred_method()" };
   nops++;
+  if (vh_thorough)
+    {
+      /* a working area of 32 MiB: the only size class with its own mapping strategy (huge-page attempt, fallback) */
+      ops[nops] = (struct opdef) { O_RN, M_YESCRYPT, "$y$jC5$saltSALTsalt", 0, "crypt_rn(yescrypt, 32 MiB)" };
+      nops++;
+    }
   ncanary0 = nops;
   /* documented MT-unsafe interfaces: the canary that shows the explorer can see the opposite */
   ops[nops] = (struct opdef) { O_CRYPT_STATIC, M_MD5, vh_cheap[M_MD5][0], 0, "crypt(md5crypt) [MT-unsafe canary]" };
@@ -690,6 +740,7 @@ main (int argc, char **argv)
 {
   vh_init (argc, argv);
   vh_mmap_cap = (size_t) 64 << 20;
+  vh_on_map = on_map;
   vh_img_find ();
   if (!vh_nimg)
     vh_internal ("library image not found");
@@ -707,7 +758,8 @@ main (int argc, char **argv)
     char sym[200];
     static const char *const known[] = { "__assert_fail", "__errno_location", "arc4random_buf", "explicit_bzero", "free", "malloc", "realloc", "memcmp", "memcpy",
       "memmove", "memset", "mmap", "munmap", "snprintf", "strchr", "strcspn", "strlen", "strncmp", "strrchr", "strspn", "strtoul", "__cxa_finalize",
-      "_ITM_deregisterTMCloneTable", "_ITM_registerTMCloneTable", "__gmon_start__", "__stack_chk_fail", "abort", "calloc", "strcmp", "strcpy", "memchr", "strnlen", 0
+      "_ITM_deregisterTMCloneTable", "_ITM_registerTMCloneTable", "__gmon_start__", "__stack_chk_fail", "abort", "calloc", "strcmp", "strcpy", "memchr", "strnlen",
+      "madvise", "strncpy", "strcat", "strncat", "memrchr", "strstr", "strtol", "strtoull", "strtoll", "getrandom", "getentropy", 0
     };
     while (f && fgets (sym, sizeof sym, f))
       {
@@ -718,8 +770,15 @@ main (int argc, char **argv)
         for (int i = 0; known[i]; i++)
           if (!strcmp (known[i], sym))
             ok = 1;
-        if (!ok)
+        /* synchronisation primitives and thread-local storage would need their own scheduling points: refuse to judge.  Any
+           other new import is recorded as an assumption (treated as a pure function of its arguments) and the run goes on */
+        if (!ok && (!strncmp (sym, "pthread_", 8) || !strncmp (sym, "sem_", 4) || !strncmp (sym, "__tls", 5) || !strncmp (sym, "mtx_", 4) || !strncmp (sym, "cnd_", 4) || !strncmp (sym, "call_once", 9)))
           vh_internal ("the library imports '%s', which this scheduler does not model (synchronisation or hidden libc state)", sym);
+        if (!ok)
+          {
+            vh_stat ("unmodelled_imports", 1);
+            vh_sample ("{\"unmodelled_import\":\"%s\",\"treated_as\":\"a function without state shared between threads\"}", sym);
+          }
       }
     if (f)
       pclose (f);
